@@ -1,8 +1,88 @@
-(* C05 — theorems are added below as the proofs are completed; see DESIGN.md *)
+(* C05 — burst features equal their documented definitions.
+   Model: Model/BurstFeat.v over binary64.  `flankseq` is the temporal flank sequence
+   (rise, decay, rise, ... for a peak-centred table; decay, rise, decay, ... for a trough-centred
+   one); `amp_cons_generic` is the centring-free definition: the smallest min/max ratio among the
+   three adjacent flank pairs that include one of the cycle's flanks. *)
 From Coq Require Import List Arith Bool ZArith Floats.PrimFloat.
 Import ListNotations.
-From ByC Require Import Base.Result Model.Cycles Model.BurstFeat.
+From ByC Require Import Base.Result Base.ListAux Base.FloatBase Base.FloatFacts
+  Model.Cycles Model.BurstFeat Proofs.BurstFeat.
 
-Theorem C05_placeholder_empty_table_rejected : forall f, ends_nan 0 f = Err EIndex.
-Proof. reflexivity. Qed.
-Print Assumptions C05_placeholder_empty_table_rejected.
+(* amp_fraction = (#smaller + (#equal + 1)/2) / n : the average rank (ties share it) over n *)
+Theorem C05_amp_fraction_is_average_rank_over_n : forall va i, i < length va -> isnan (fnth va i) = false ->
+  fnth (amp_fraction va) i =
+  ((FloatBase.Z2F (2 * n_less va (fnth va i) + n_eq va (fnth va i) + 1) / 2)
+     / FloatBase.Z2F (Z.of_nat (length va)))%float.
+Proof. exact amp_fraction_spec. Qed.
+Print Assumptions C05_amp_fraction_is_average_rank_over_n.
+
+Theorem C05_amp_fraction_range : forall va i, i < length va -> isnan (fnth va i) = false ->
+  (Z.of_nat (length va) < 2 ^ 52)%Z ->
+  (0 <? fnth (amp_fraction va) i)%float = true /\ (fnth (amp_fraction va) i <=? 1)%float = true.
+Proof. exact amp_fraction_range. Qed.
+Print Assumptions C05_amp_fraction_range.
+
+(* both centring-dependent branches of the code compute the same centring-free definition *)
+Theorem C05_amp_consistency_centring_free : forall peak d rises decays c, 1 <= c ->
+  amp_cons_at peak d rises decays c = amp_cons_generic d (flankseq peak rises decays) c.
+Proof. exact amp_cons_at_generic. Qed.
+Print Assumptions C05_amp_consistency_centring_free.
+
+(* table level: first and last cycle NaN, interior = clamped three-pair minimum *)
+Theorem C05_amp_consistency_table : forall peak d rises decays l,
+  amp_consistency peak d rises decays = Ok l ->
+  length l = length rises /\
+  (forall c, c < length rises ->
+     nth c l 0%float = if Nat.eqb c 0 || Nat.eqb c (length rises - 1) then fnan
+                       else clamp0 (amp_cons_at peak d rises decays c)).
+Proof. exact amp_consistency_spec. Qed.
+Print Assumptions C05_amp_consistency_table.
+
+Theorem C05_amp_consistency_ends_undefined : forall peak d rises decays l,
+  amp_consistency peak d rises decays = Ok l ->
+  isnan (nth 0 l 0%float) = true /\ isnan (nth (length rises - 1) l 0%float) = true.
+Proof. exact amp_consistency_ends_nan. Qed.
+Print Assumptions C05_amp_consistency_ends_undefined.
+
+Theorem C05_period_consistency_ends_undefined : forall d periods l,
+  period_consistency d periods = Ok l ->
+  isnan (nth 0 l 0%float) = true /\ isnan (nth (length periods - 1) l 0%float) = true.
+Proof. exact period_consistency_ends_nan. Qed.
+Print Assumptions C05_period_consistency_ends_undefined.
+
+(* monotone-step fractions use STRICT comparisons of consecutive samples *)
+Theorem C05_monotone_steps_are_strict : forall up l k, S k < length l ->
+  nth k (steps up l) false =
+  if up then (nth k l 0 <? nth (S k) l 0)%float else (nth (S k) l 0 <? nth k l 0)%float.
+Proof. exact steps_spec. Qed.
+Print Assumptions C05_monotone_steps_are_strict.
+
+(* ranges (binary64): all in [0,1] when the flank voltages involved are positive and finite *)
+Theorem C05_amp_consistency_range : forall peak d rises decays l c,
+  amp_consistency peak d rises decays = Ok l -> 1 <= c -> c + 1 < length rises ->
+  (forall i, 2 * c - 1 <= i <= 2 * c + 2 -> posfin (flankseq peak rises decays i)) ->
+  nth c l 0%float = amp_cons_at peak d rises decays c /\
+  isnan (nth c l 0%float) = false /\
+  (0 <=? nth c l 0%float)%float = true /\ (nth c l 0%float <=? 1)%float = true.
+Proof. exact amp_consistency_range. Qed.
+Print Assumptions C05_amp_consistency_range.
+
+Theorem C05_period_consistency_range : forall d periods c,
+  (forall i, c - 1 <= i <= c + 1 -> (0 < nth i periods 0%Z < 2 ^ 53)%Z) ->
+  let r := period_cons_at d periods c in
+  isnan r = false /\ (0 <? r)%float = true /\ (r <=? 1)%float = true.
+Proof. exact period_cons_at_range. Qed.
+Print Assumptions C05_period_consistency_range.
+
+Theorem C05_monotonicity_range : forall peak sig r,
+  (0 <= s_last r)%Z -> (s_last r < s_center r)%Z -> (s_center r < s_next r)%Z ->
+  (s_next r < Z.of_nat (length sig))%Z -> (Z.of_nat (length sig) < 2 ^ 52)%Z ->
+  (0 <=? monotonicity_row peak sig r)%float = true /\
+  (monotonicity_row peak sig r <=? 1)%float = true.
+Proof. exact monotonicity_row_range. Qed.
+Print Assumptions C05_monotonicity_range.
+
+(* the min/max ratio does not depend on the order of its arguments — for EVERY pair of doubles *)
+Theorem C05_ratio_symmetric : forall a b : PrimFloat.float, ratio_minmax a b = ratio_minmax b a.
+Proof. exact ratio_minmax_sym. Qed.
+Print Assumptions C05_ratio_symmetric.
